@@ -37,7 +37,12 @@ def run(ctx):
         fw.write_if_changed(fw.COQ / 'Gen' / 'Facts_C01.v', gen_facts_c01.stub(str(e)))
         ctx.broken_tie('gen_facts_c01 (source translator failed closed)', str(e))
         facts_ok = False
-    fw.static_proofs(ctx, ['Properties/C01.v', 'Properties/C01_native.v', 'Properties/C01_end_to_end.v'], extra_targets=['Tie/C01_tie.vo'] if facts_ok else [])
+    # T-gen for Model/EngPy.v: the Reader methods and the two Python run loops are re-translated from the current source
+    # into the IR of Model/PyIR.v and proved equal to the hand model (Tie/EngPy_tie.v, Properties/C01_source.v)
+    from .. import engpy_source
+    src_props, src_targets = engpy_source.prepare(ctx)
+    fw.static_proofs(ctx, ['Properties/C01.v', 'Properties/C01_native.v', 'Properties/C01_end_to_end.v'] + src_props,
+                     extra_targets=(['Tie/C01_tie.vo'] if facts_ok else []) + src_targets)
     so = fw.build_fjcore(ctx)
     base = gen_cases(ctx, ctx.n(1500, 15000))
     cases = []
@@ -64,6 +69,8 @@ def run(ctx):
     for c, r in list(zip(cases, results))[:3]:
         ctx.sample({'case': {k: c[k] for k in ('w', 'segs', 'input', 'engine')}, 'observed': r})
     ec.compare_with_machine(ctx, 'c01', cases, results)
+    # the translator's own tie: PyIR.exec on the regenerated loop bodies against what the real Python engines returned
+    engpy_source.compare_source(ctx, cases, results)
     # the native cases are also evaluated on the transcription of _fjcore.c (Model/EngNative.v), whose refinement to
     # the machine definition is proved in Properties/C01_native.v: this ties the transcription itself to the C code
     ncases = [(c, r) for c, r in zip(cases, results) if c['engine'] == 'native']
